@@ -284,6 +284,7 @@ type executor struct {
 	curState         *state
 	usesCivil        bool
 	loopHeapLocals   []modTarget
+	mergeRec         map[*ssa.BasicBlock]map[ssa.Value]Val
 }
 
 func newExecutor(prog *program, specs *specDB) *executor {
@@ -883,10 +884,26 @@ func (x *executor) enterLoopHeader(m *machine, fr *frame, li *loopInfo) bool {
 		return false
 	}
 	// entry edge
+	if lc.merge {
+		// inv-init is an obligation of every arriving path (checked here, before the merge)
+		ev0 := x.loopEval(x.contractEval(m, fr, pos, ""), &loopRun{li: li, lc: lc, allocMark: m.st.lowRef(), preSt: m.st.clone()})
+		for i, cl := range lc.invariants {
+			ev0.where = cl.line
+			x.oblige(m, "inv-init", fmt.Sprintf("%s.%s", lname, clauseName(cl, i)), ev0.evalBool(cl.e), cl.tags, cl.text)
+		}
+		if !x.mergeAtLoop(m, fr, li) {
+			return false
+		}
+	}
 	lr := &loopRun{li: li, lc: lc, allocMark: m.st.lowRef(), preSt: m.st.clone()}
 	ev := x.loopEval(x.contractEval(m, fr, pos, ""), lr)
 	for i, cl := range lc.invariants {
 		ev.where = cl.line
+		if lc.merge {
+			// merged continuation: the invariants were proved by every arriving path; here they are what is known
+			m.st.assume(ev.evalBool(cl.e))
+			continue
+		}
 		x.oblige(m, "inv-init", fmt.Sprintf("%s.%s", lname, clauseName(cl, i)), ev.evalBool(cl.e), cl.tags, cl.text)
 	}
 	// modifies targets evaluated before the havoc
@@ -1699,4 +1716,211 @@ func (x *executor) occurrenceOf(fn *ssa.Function, in ssa.Instruction, txt string
 		}
 	}
 	return rank
+}
+
+// ---- merge of the paths arriving at a top-level loop ---------------------------------------------------------
+// `merge` in a loop section: every path that reaches the loop proves the invariants and ends; one path continues
+// from a state that stands for all of them: the path condition is the function's entry condition, every local
+// variable assigned before the loop (except parameters that are never reassigned), everything in the function's
+// modifies clause and everything allocated so far are unknown, and only the loop invariants are known. SSA values
+// computed before the loop and used in or after it are recomputed in that state when their definition is pure
+// (loads, field/index addresses, len, conversions, arithmetic); other such values must be the same on every path.
+func (x *executor) mergeAtLoop(m *machine, fr *frame, li *loopInfo) bool {
+	if !fr.top {
+		panic(unsupported("merge loop inside an inlined function " + fr.key))
+	}
+	for _, o := range fr.loops {
+		if o != li && o.blocks[li.header] {
+			panic(unsupported("merge loop nested in another loop in " + fr.key))
+		}
+	}
+	fn := li.header.Parent()
+	live := liveAcross(li.header)
+	pure := func(in ssa.Instruction) bool {
+		switch v := in.(type) {
+		case *ssa.UnOp:
+			return v.Op != token.ARROW
+		case *ssa.FieldAddr, *ssa.Field, *ssa.IndexAddr, *ssa.Index, *ssa.BinOp, *ssa.Convert, *ssa.ChangeType, *ssa.Extract, *ssa.Slice:
+			return true
+		case *ssa.Call:
+			if b, ok := v.Call.Value.(*ssa.Builtin); ok && (b.Name() == "len" || b.Name() == "cap") {
+				return true
+			}
+		}
+		return false
+	}
+	// values to recompute: pure definitions outside the loop that are live across the loop head, closed under operands
+	remat := map[ssa.Instruction]bool{}
+	var need func(v ssa.Value)
+	need = func(v ssa.Value) {
+		in, ok := v.(ssa.Instruction)
+		if !ok || in.Block() == nil || li.blocks[in.Block()] || remat[in] {
+			return
+		}
+		if _, isAlloc := v.(*ssa.Alloc); isAlloc {
+			return
+		}
+		if !pure(in) {
+			return
+		}
+		remat[in] = true
+		for _, op := range in.Operands(nil) {
+			if *op != nil {
+				need(*op)
+			}
+		}
+	}
+	for v := range live {
+		need(v)
+	}
+	// everything else that is live (or feeds a recomputed value) must agree between the paths
+	fixed := map[ssa.Value]bool{}
+	addFixed := func(v ssa.Value) {
+		if in, ok := v.(ssa.Instruction); ok && remat[in] {
+			return
+		}
+		switch v.(type) {
+		case *ssa.Const, *ssa.Global, *ssa.Function, *ssa.Builtin, *ssa.Parameter, *ssa.FreeVar:
+			return
+		}
+		if _, have := fr.env[v]; have {
+			fixed[v] = true
+		}
+	}
+	heapAllocs := map[*ssa.Alloc]bool{}
+	for v := range live {
+		if a, ok := v.(*ssa.Alloc); ok {
+			// a local variable's cell: the continuing path uses its own (contents are unknown if assigned before the
+			// loop); a heap object allocated before the loop: an unknown reference allocated since entry
+			if a.Heap {
+				if _, isCell := fr.cells[a]; !isCell {
+					heapAllocs[a] = true
+				}
+			}
+			continue
+		}
+		addFixed(v)
+	}
+	for in := range remat {
+		for _, op := range in.Operands(nil) {
+			if *op != nil {
+				if _, isAlloc := (*op).(*ssa.Alloc); !isAlloc {
+					addFixed(*op)
+				}
+			}
+		}
+	}
+	if x.mergeRec == nil {
+		x.mergeRec = map[*ssa.BasicBlock]map[ssa.Value]Val{}
+	}
+	if rec, ok := x.mergeRec[li.header]; ok {
+		for v := range fixed {
+			rv, recd := rec[v]
+			if !recd || !sameVal(fr.env[v], rv) {
+				panic(unsupported(fmt.Sprintf("merge loop %d in %s: value %s (%s) computed before the loop differs between paths", li.ordinal, fr.key, v.Name(), v.String())))
+			}
+		}
+		return false
+	}
+	rec := map[ssa.Value]Val{}
+	for v := range fixed {
+		rec[v] = fr.env[v]
+	}
+	x.mergeRec[li.header] = rec
+	// the merged state
+	m.st.pc = append([]*T(nil), x.entry.pc...)
+	pre := map[*ssa.BasicBlock]bool{}
+	for _, b := range fn.Blocks {
+		if !li.blocks[b] {
+			pre[b] = true
+		}
+	}
+	// parameters that are never reassigned keep their entry value
+	paramOnly := map[*Cell]Val{}
+	for a, cell := range fr.cells {
+		if a == nil {
+			continue
+		}
+		onlyParam, any := true, false
+		for _, ref := range *a.Referrers() {
+			if st, ok := ref.(*ssa.Store); ok && st.Addr == a {
+				any = true
+				if _, isP := st.Val.(*ssa.Parameter); !isP {
+					onlyParam = false
+				}
+			} else if mc, isMC := ref.(*ssa.MakeClosure); isMC {
+				// captured by a closure: fine if the closure only reads it
+				cf := mc.Fn.(*ssa.Function)
+				for bi, bv := range mc.Bindings {
+					if bv != ssa.Value(a) || bi >= len(cf.FreeVars) {
+						continue
+					}
+					for _, fref := range *cf.FreeVars[bi].Referrers() {
+						switch fr2 := fref.(type) {
+						case *ssa.UnOp, *ssa.DebugRef:
+						case *ssa.Store:
+							if fr2.Addr == ssa.Value(cf.FreeVars[bi]) {
+								onlyParam = false
+							}
+						default:
+							onlyParam = false
+						}
+					}
+				}
+			} else if _, isLoad := ref.(*ssa.UnOp); !isLoad {
+				if _, isDbg := ref.(*ssa.DebugRef); !isDbg {
+					onlyParam = false // address taken or passed on
+				}
+			}
+		}
+		if any && onlyParam {
+			if v, ok := m.st.cells[cell]; ok {
+				paramOnly[cell] = v
+			}
+		}
+	}
+	pli := &loopInfo{header: li.header, blocks: pre, ordinal: li.ordinal, pos: li.pos}
+	plr := &loopRun{li: pli, allocMark: refConst(0), preSt: m.st.clone()}
+	plr.modRefs = append(plr.modRefs, x.modSet...)
+	kept := map[*Cell]Val{}
+	x.havocLoopRegion(m, fr, pli, plr, kept, pre)
+	for cell, v := range paramOnly {
+		m.st.cells[cell] = v
+	}
+	// maps created before the loop: unknown contents for references allocated since entry
+	base := m.st.lowRef()
+	for k, old := range m.st.heaps {
+		if !strings.HasPrefix(k, "maphas:") && !strings.HasPrefix(k, "mapval:") {
+			continue
+		}
+		nh := x.c.d.fresh("Mmerge", old.sort)
+		qcounter++
+		r := atom(fmt.Sprintf("r!%d", qcounter), "Int")
+		inRegion := mkAnd(app("<=", "Bool", base, r), app("<", "Bool", r, refConst(0)))
+		m.st.assume(app(fmt.Sprintf("forall ((%s Int))", r.op), "Bool", mkImp(mkNot(inRegion), mkEq(mkSelect(nh, r), mkSelect(old, r)))))
+		m.st.heaps[k] = nh
+	}
+	for a := range heapAllocs {
+		if old, ok := fr.env[a]; ok && old.t != nil {
+			r := x.c.d.fresh("mref", "Int")
+			m.st.assume(mkAnd(app("<=", "Bool", m.st.lowRef(), r), app("<", "Bool", r, refConst(0))))
+			fr.env[a] = Val{t: r, typ: old.typ}
+		}
+	}
+	// recompute the pure values in definition order
+	save := fr.block
+	for _, b := range fn.Blocks {
+		if li.blocks[b] {
+			continue
+		}
+		for _, in := range b.Instrs {
+			if remat[in] {
+				fr.block = b
+				x.step(m, fr, in)
+			}
+		}
+	}
+	fr.block = save
+	x.note(fmt.Sprintf("loop %d of %s: the paths reaching the loop are merged (each proves the invariants; the continuation knows only the entry condition and the invariants)", li.ordinal, fr.key))
+	return true
 }
